@@ -56,11 +56,9 @@ pub fn run_family_into(report: &mut Report, property: &str, family: &str, config
             let violation = &found.violation;
             if violation.property == "MACHINERY" { report.machinery_errors.push(format!("{}: {}", violation.signature, violation.detail)); continue; }
             // a check reports its own property, plus panics (C11) seen anywhere
-            let relevant = violation.property == property;
-            if !relevant { 
-                report.add_count("violations_of_other_properties_seen", 1);
-                continue;
-            }
+            // every monitor runs in every family: a violation of another property seen here is reported too
+            // (under its own property id), it is never dropped
+            if violation.property != property { report.add_count("violations_of_other_properties_seen", 1); }
             if let Some(k) = known.matches(violation) {
                 report.known_hit.insert((violation.property.clone(), format!("{} [{}]", k.what_fails, k.signature)));
                 continue;
@@ -69,12 +67,12 @@ pub fn run_family_into(report: &mut Report, property: &str, family: &str, config
             if report.violations.iter().any(|(v, _)| v.property == signature.0 && v.signature == signature.1) { continue; }
             match confirm::<World>(&cfg, &found.history, &signature, found.in_closure) {
                 Ok(()) => {
-                    let replay = write_replay(property, &violation.signature, &replay_body(family, tier, index, &cfg, &found.history, found.in_closure, violation));
+                    let replay = write_replay(&violation.property, &violation.signature, &replay_body(family, tier, index, &cfg, &found.history, found.in_closure, violation));
                     report.violations.push((violation.clone(), replay));
                 }
                 Err(problem) => {
                     // order of HashMap iteration inside the engine can make a genuine violation show on one run only: report it, flagged
-                    let replay = write_replay(property, &violation.signature, &replay_body(family, tier, index, &cfg, &found.history, found.in_closure, violation));
+                    let replay = write_replay(&violation.property, &violation.signature, &replay_body(family, tier, index, &cfg, &found.history, found.in_closure, violation));
                     let mut v = violation.clone();
                     v.detail = format!("{} [replay note: {}]", v.detail, problem);
                     report.violations.push((v, replay));
